@@ -299,7 +299,7 @@ impl C18 {
 
     /// (c) worker-pool sizes
     fn pools(&self, q: bool, findings: &Findings, scratch: &std::path::Path) -> Result<u64, String> {
-        let exe = std::env::current_exe().map_err(|e| e.to_string())?;
+        let exe = crate::explore::self_exe()?;
         let sizes = [1usize, 2, 4, 16];
         let dir = scratch.join(format!("c18-{}", std::process::id()));
         std::fs::create_dir_all(&dir).map_err(|e| e.to_string())?;
@@ -378,7 +378,7 @@ impl C18 {
 
     /// first-toucher orders of the lazily initialised globals, each in a fresh process
     fn first_touch(&self, findings: &Findings) -> Result<u64, String> {
-        let exe = std::env::current_exe().map_err(|e| e.to_string())?;
+        let exe = crate::explore::self_exe()?;
         let kinds = ["hash", "verify", "seeded_key_gen"];
         let mut items = vec![];
         for a in kinds {
